@@ -122,6 +122,31 @@ def one(rep, prog, cfg):
         rep.check(got.get(lit) == {field}, "C14.fields", "%s/%s->%s" % (cfg, lit, "+".join(sorted(got.get(lit, ["?"]))) or "-"),
                   hs.loc(hs.span), "attribute line %r sets builder field(s) %s, the protocol table says %s"
                   % (lit, sorted(got.get(lit, [])), field), detail={"writes": sorted(got.get(lit, []))})
+    # what is written is the line's value: in the arm of attribute X the value stored in the builder field derives from the
+    # `value` parameter (possibly through its conversion) — a constant (`None`, a default) there drops what the server listed
+    fl_hs = Flow(hs)
+    for lit, field in FIELD_TABLE.items():
+        region = cases.get(lit, set()) - common
+        from_value = None
+        for bb in sorted(region):
+            blk = hs.blocks[bb]
+            cands = []
+            for stm in blk["s"]:
+                if stm["k"] == "assign" and stm["place"]["l"] in selfs and any(isinstance(e, dict) and e.get("n") == field for e in stm["place"]["p"]):
+                    rv = stm["rv"]
+                    ls = [op_local(rv["op"])] if rv["k"] in ("use", "cast") else [op_local(o) for o in rv.get("ops", [])] if rv["k"] == "agg" else []
+                    cands.append([l for l in ls if l is not None])
+            t = blk["t"]
+            if t["k"] == "call" and t["dest"]["l"] in selfs and any(isinstance(e, dict) and e.get("n") == field for e in t["dest"]["p"]):
+                cands.append([op_local(a) for a in t["args"] if op_local(a) is not None])
+            for ls in cands:
+                leaves, _ = fl_hs.sources(ls, through_call=lambda t2, k=None: tuple(range(4)), follow_mut=False) if ls else (set(), None)
+                ok_v = ("param", 3) in leaves
+                from_value = ok_v if from_value is None else (from_value and ok_v)
+        if from_value is not None:
+            rep.check(from_value, "C14.fields", "%s/%s stores the line's value" % (cfg, lit), hs.loc(hs.span),
+                      "in the arm of attribute %r the builder field `%s` is assigned something that does not derive from the line's value (a constant "
+                      "or default): the attribute the server listed is lost" % (lit, field))
     # the numeric attributes are parsed with a type that holds every value the protocol can send there (MPD: queue positions and
     # song ids are unsigned 32-bit, priorities 0..255): a narrower parse type turns a well-formed listing into an error
     for lit, (wide, narrow) in NUMERIC_RANGE.items():
